@@ -10,6 +10,7 @@ package evalfilter
 import (
 	"context"
 	"fmt"
+	"math"
 	"strings"
 	"sync"
 
@@ -52,6 +53,10 @@ type Eval struct {
 
 	// Mutex to allow concurrent runs
 	mutex sync.Mutex
+
+	// tooLarge is set by the compiler if an offset, index, or count
+	// did not fit into the 16-bit operand of an instruction.
+	tooLarge bool
 }
 
 // New creates a new instance of the evaluator.
@@ -134,6 +139,7 @@ func (e *Eval) Prepare(flags ...[]byte) error {
 	e.instructions = code.Instructions{}
 	e.constants = []object.Object{}
 	e.functions = make(map[string]environment.UserFunction)
+	e.tooLarge = false
 
 	//
 	// Compile the program to bytecode
@@ -145,6 +151,13 @@ func (e *Eval) Prepare(flags ...[]byte) error {
 	//
 	if err != nil {
 		return err
+	}
+
+	//
+	// Our instructions only have room for 16-bit operands.
+	//
+	if e.tooLarge {
+		return fmt.Errorf("the program is too large: an offset, constant-index, or count exceeds %d", math.MaxUint16)
 	}
 
 	//
